@@ -5,7 +5,7 @@ from .irparse import IntT, FpT
 
 
 class Leaf:
-    def __init__(self, ck, mod, so, fname, spec, pre=None, fpmode='real', stubs=None, loop_bound=64, restype='void', merge=False, max_paths=20000, prefill=0.0):
+    def __init__(self, ck, mod, so, fname, spec, pre=None, fpmode='real', stubs=None, loop_bound=64, restype='void', merge=False, max_paths=20000, prefill=0.0, unknown_is_feasible=False, feasibility_timeout_s=None):
         """spec: list of ('arr', name, n[, mode]) with mode in {'in','out','inout'}; ('f64', name[, value]); ('i32', name[, value]); ('ptr0', name) NULL pointer.
         pre: callable(vars) -> list of z3 constraints."""
         self.ck = ck; self.fname = fname
@@ -36,6 +36,8 @@ class Leaf:
                 for i, b in enumerate(data): o.put(i, 'u8', b)
                 self.nargs.append(('ptr', (o, 0)))
         self.ex = ex = llsym.Exec(mod, fpmode=fpmode, stubs=stubs, loop_bound=loop_bound, merge=merge, max_paths=max_paths)
+        if unknown_is_feasible: ex.unknown_is_feasible = True
+        if feasibility_timeout_s: ex.feasibility_timeout_s = feasibility_timeout_s
         st = w.to_state(ex)
         self.pre = list(pre(self.v)) if pre else []
         st.pc += self.pre
